@@ -88,6 +88,8 @@ def run_shard(shard):
                     check(st, STREAMS[li], STREAMS[ri], mode, pol)
         if li == 0:
             typed_family(st)
+        if li == 1:
+            mergekey_family(st)
     finally:
         cleanup()
     st.sample({"lhs_stream": render_stream(STREAMS[li]),
@@ -239,6 +241,7 @@ TYPED_PAIRS = [
     ("a: &A 2020-01-02\nb: *A\n", "c: &C 2021-03-04\nd: *C\n"),
     ("f: 1.5\n", "f: 10.0\ng: -0.25\nh: 1.0e+3\n"),
     ("s: !!set {? x}\n", "s: !!set {? y}\nn: ~\nb: true\n"),
+    ("u: {x: 4}\n", "d: &d {x: 1}\nu:\n  <<: *d\n  z: 3\n"),
 ]
 
 
@@ -288,8 +291,123 @@ def typed_family(st):
                               if outs[m] != outs["merge_across"]})[:400])
 
 
+_MK_R1 = ("defs: &d {x: 1, y: 2}\nuse:\n  <<: *d\n  z: 3\nu:\n  <<: *d\n"
+          "  w: 5\n")
+MERGEKEY_STREAMS = [
+    # (left documents, right documents)
+    (["u: {x: 4}\n"], [_MK_R1]),
+    (["top: 1\n"], [_MK_R1, "defs: {x: 9}\n"]),
+    (["a: 1\n", "u: {y: 7}\n"], [_MK_R1]),
+    (["a: 1\n", "b: 2\n"], [_MK_R1, "use: {x: 8}\n"]),
+    ([_MK_R1], ["u: {x: 4}\n"]),
+]
+
+
+def mergekey_family(st):
+    """Right-hand documents whose hashes inherit through a YAML merge key:
+    whatever copying a mode does, every output document is what single
+    merges of freshly loaded documents give - the same data, and the
+    inheriting hash still owns only its own keys."""
+    from yamlpath.common import Parsers
+    from vkit import editrun
+
+    def load(text):
+        return Parsers.get_yaml_editor().load(text)
+
+    def shape(data):
+        # own (not inherited) keys of every hash, by position
+        out = []
+
+        def walk(node, where):
+            if corpus.is_map(node):
+                own = [k for k, _ in node.non_merged_items()] if hasattr(
+                    node, "non_merged_items") else list(node)
+                out.append((where, tuple(own), len(getattr(
+                    node, "merge", []) or [])))
+                for k, v in node.items():
+                    walk(v, where + (str(k),))
+            elif corpus.is_list(node):
+                for i, v in enumerate(node):
+                    walk(v, where + (i,))
+        walk(data, ())
+        return sorted(out, key=repr)
+
+    for ltexts, rtexts in MERGEKEY_STREAMS:
+        for mode in MODES:
+            st.evaluations += 1
+            st.transitions += 1
+            st.validated += 1
+            pol = POLS[0]
+            case = {"lhs_stream": "".join("---\n" + t for t in ltexts),
+                    "rhs_stream": "".join("---\n" + t for t in rtexts),
+                    "mode": mode, "policies": pol, "mergekeys": True}
+            # the oracle: single merges, every document loaded afresh
+            def fold(first, others):
+                cfg = mergerun.make_config(pol)
+                acc = Merger(corpus.LOG, load(first), cfg)
+                for t in others:
+                    acc.merge_with(load(t))
+                return acc.data
+            if mode == "condense_all":
+                want = [fold(ltexts[0], ltexts[1:] + rtexts)]
+            elif mode == "merge_across":
+                want = []
+                for i in range(max(len(ltexts), len(rtexts))):
+                    if i < len(ltexts) and i < len(rtexts):
+                        want.append(fold(ltexts[i], [rtexts[i]]))
+                    else:
+                        want.append(load((ltexts + rtexts)[
+                            i if i < len(ltexts) else len(ltexts) + i]))
+            else:
+                want = [fold(t, rtexts) for t in ltexts]
+            cfg = mergerun.make_config(pol)
+            cfg.args.multi_doc_mode = mode
+            lpath = os.path.join(scratch(), "ml.yaml")
+            rpath = os.path.join(scratch(), "mr.yaml")
+            with open(lpath, "w", encoding="utf-8") as fh:
+                fh.write(case["lhs_stream"])
+            with open(rpath, "w", encoding="utf-8") as fh:
+                fh.write(case["rhs_stream"])
+            editor = Parsers.get_yaml_editor()
+            Merger.depwarn_printed = False
+            try:
+                lhs_docs, _ = yaml_merge.get_doc_mergers(
+                    corpus.LOG, editor, cfg, lpath)
+                with core.watchdog(10):
+                    state = yaml_merge.merge_docs(
+                        corpus.LOG, editor, cfg, lhs_docs, rpath)
+                got = [m.data for m in lhs_docs]
+            except BaseException as ex:  # pylint: disable=broad-except
+                st.fail("merge-keys|%s|crash" % mode, case, "documents",
+                        "%s: %s" % (type(ex).__name__, str(ex)[:100]))
+                continue
+            st.states += 1
+            st.sig("mergekeys", len(ltexts), len(rtexts), mode)
+            wplain = [corpus.canon(d) for d in want]
+            gplain = [corpus.canon(d) for d in got]
+            if state != 0 or gplain != wplain:
+                st.fail("merge-keys|%s|document-content" % mode, case,
+                        repr(wplain)[:300], "state %s: %r" % (
+                            state, gplain)[:300])
+                continue
+            if [shape(d) for d in got] != [shape(d) for d in want]:
+                st.fail("merge-keys|%s|inheritance-lost" % mode, case,
+                        repr([shape(d) for d in want])[:300],
+                        repr([shape(d) for d in got])[:300])
+                continue
+            st.outcomes["merged"] += 1
+
+
 def replay(case):
     st = core.Stats(None)
+    if case.get("mergekeys"):
+        try:
+            mergekey_family(st)
+        finally:
+            cleanup()
+        for lst in st.fails.values():
+            return lst[0]
+        return None
     if case.get("typed"):
         try:
             typed_family(st)
